@@ -13,7 +13,8 @@ ELB = {"i8": 1, "i32": 4, "i64": 8, "i4": 1, "i12": 2}
 
 
 class AllocGen:
-    def __init__(self, rng, views=True):
+    def __init__(self, rng, views=True, two_mem=False):
+        self.two_mem = two_mem
         self.r = rng
         self.n = 0
         self.tag = 0
@@ -64,12 +65,16 @@ class AllocGen:
             el = r.choice(list(ELB))
             n = r.choice([3, 4, 5, 8, 16, 16, 24, 64])
             self.tag += 1
-            self.types[nm] = f'memref<{n}x{el}, "L1">'
+            space = "L3" if self.two_mem and r.random() < 0.35 else "L1"
+            self.types[nm] = f'memref<{n}x{el}, "{space}">'
             self.allocs.append(nm)
             self.refs.append(nm)
             self.unused.add(nm)
             self.site_of[nm] = self.tag
-            return {"k": "alloc", "name": nm, "site": self.tag, "n": n, "el": el, "align": r.choice([1, 4, 8, 64, 64, 256])}
+            st = {"k": "alloc", "name": nm, "site": self.tag, "n": n, "el": el, "align": r.choice([1, 4, 8, 64, 64, 256])}
+            if space != "L1":
+                st["space"] = space  # a second memory in the same function (emitted as snax.alloc: memref-to-snax only converts L1)
+            return st
         if k == "use":
             return self.use()
         if k == "view":
@@ -79,7 +84,7 @@ class AllocGen:
             ln = r.choice([x for x in (1, 2, 4) if x <= n])
             off = r.randrange(0, n - ln + 1)
             nm = self.fresh("v")
-            self.types[nm] = f'memref<{ln}x{el}, strided<[1], offset: {off}>, "L1">'
+            self.types[nm] = f'memref<{ln}x{el}, strided<[1], offset: {off}>, {self.types[src].rsplit(", ", 1)[1]}'
             self.refs.append(nm)
             self.site_of[nm] = self.site_of[src]
             return {"k": "view", "name": nm, "src": src, "off": off, "len": ln}
@@ -131,7 +136,14 @@ def emit(ast, p=(0, 0), fname="f", wrap=True) -> str:
     def stmts(ind, body):
         for s in body:
             k = s["k"]
-            if k == "alloc":
+            if k == "alloc" and s.get("space"):
+                st_ = "!llvm.struct<(!llvm.ptr, !llvm.ptr, i32, !llvm.array<1 x i32>, !llvm.array<1 x i32>)>"
+                nm_ = s["name"]
+                e(ind, f'{nm_}_s = arith.constant {s["n"] * ELB[s["el"]]} : index')
+                e(ind, f'{nm_}_n = arith.constant {s["n"]} : index')
+                e(ind, f'{nm_}_a = "snax.alloc"({nm_}_s, {nm_}_n) <{{memory_space = "{s["space"]}", alignment = {s["align"]} : i64}}> : (index, index) -> {st_}')
+                e(ind, f"{nm_} = builtin.unrealized_conversion_cast {nm_}_a : {st_} to {T[nm_]}")
+            elif k == "alloc":
                 e(ind, f'{s["name"]} = memref.alloc() {{alignment = {s["align"]} : i64, vsite = {s["site"]} : i64}} : {T[s["name"]]}')
             elif k == "view":
                 e(ind, f'{s["name"]} = memref.subview {s["src"]}[{s["off"]}][{s["len"]}][1] : {T[s["src"]]} to {T[s["name"]]}')
